@@ -871,6 +871,7 @@ package xpath
 //@   modifies heap(C@*)
 //@ field transformFunctionQuery.iterator() result
 //@   keeps-cursor
+//@   modifies heap(C@*)
 //@ field *.iterator() result
 //@   keeps-cursor
 //@   ensures-assumed[passes-test] result != nil ==> predv(self.Predicate, pos(result))     // proved for every closure stored in an .iterator slot of a step query (ensures passes-test of each (*T).Select$k; checked to exist when the contracts are loaded)
